@@ -1,4 +1,5 @@
 import Qentem.Proofs.JsonStringify
+import Qentem.Proofs.JsonRoundTrip
 /-! C08 — Stringify then Parse returns the same tree, and the text is valid JSON. -/
 namespace Qentem.Props.C08
 open Qentem.Json
@@ -18,6 +19,14 @@ theorem escape_no_control_units (s : List Nat) : ∀ c ∈ escapeJson s, 32 ≤ 
 /-- … no bare quote, and every backslash starts one of the RFC 8259 escapes. -/
 theorem escape_well_escaped (s : List Nat) : wellEscaped (escapeJson s) = true :=
   escapeJson_wellEscaped s
+
+/-- `UnEscape` inverts `Escape`: for every string over all code units (NUL, controls, quote,
+backslash, slash, any wide unit) and every character width, reading the escaped body up to its
+closing quote consumes exactly the body and the quote and yields the original string. -/
+theorem unescape_escape (w : Nat) (s rest : List Nat) :
+    let r := Qentem.Unicode.unEscapeB w (escapeJson s ++ 34 :: rest) [] [] 0
+    r.2 = (escapeJson s).length + 1 ∧ (if r.1.isEmpty then escapeJson s else r.1) = s :=
+  Qentem.Json.unescape_escape w s rest
 
 theorem specItems_ptr_undef (f : Fmt) (prec : Nat) (xs : List JVal) (b : Bool) :
     specItems f prec (xs ++ [.ptr .undef]) b = specItems f prec xs b := by
